@@ -360,7 +360,7 @@ def _shapes_heur(tier, prop=None):
         c("adhoc", "pair", FG, 2, hints="secp_must", max_perms=2), c("adhoc", "pair", HG, 2, via="command-call"),
         c("adhoc", "none", HG, 1)]))
     S.append(_group("adhoc-pair", [c("adhoc", "pair", HG, 2), c("adhoc", "pair", PT, 2, hints="empty", agents_as="values")]))
-    S.append(_group("adhoc-factor-graph", [c("adhoc", "single", FG, 2), c("adhoc", "pair", FG, 2, hints="secp", max_perms=2)]))
+    S.append(_group("adhoc-factor-graph", [c("adhoc", "single", FG, 2), c("adhoc", "pair", FG, 1, hints="secp", max_perms=2)]))
     for meth in ("heur_comhost", "gh_cgdp"):
         S.append(_group(meth + "-small", [
             c(meth, "pair", HG, 2, hosting="default"), c(meth, "pair", HG, 2, hosting="default0"),
@@ -379,6 +379,8 @@ def _shapes_heur(tier, prop=None):
                                              c(meth, "tern", HG, 3, hosting="one_zero", rnd="fixed"),
                                              c(meth, "iso", OG, 2, hosting="default", rnd="fixed"),
                                              c(meth, "dup", HG, 3, hosting="specific_positive", rnd="fixed")]))
+        S.append(_group("adhoc-secp-hint-2-agents", [c("adhoc", "single", FG, 2, hints="secp", max_perms=2)]))
+        S.append(_group("adhoc-secp-hint-pair", [c("adhoc", "pair", FG, 2, hints="secp", max_perms=2)]))
         S.append(_group("adhoc-chain3", [c("adhoc", "chain3", PT, 2, max_perms=3)]))
         S.append(_group("adhoc-pair-factor-graph", [c("adhoc", "pair", FG, 2, max_perms=3)]))
         S.append(_group("adhoc-more", [c("adhoc", "tern", HG, 3, hints="must_all"), c("adhoc", "iso", OG, 3, max_perms=2),
